@@ -200,9 +200,13 @@ def run(ctx, canary=False):
                 model, ev = E.run_estimate(eng, meas, total, solver)
                 bad = zero_mass_problems(model, inst, synth=(step == len(seq) - 1))
                 if bad:
+                    mag = max([float(np.max(np.abs(np.where(np.isfinite(model.potentials[cl].values), model.potentials[cl].values, 0.0))))
+                               for cl in model.cliques] + [0.0])
+                    only_norm = all("sums to" in b for b in bad)
                     ctx.violation("structural zero violated after call %d (%s): %s" % (step + 1, solver, "; ".join(bad[:3])),
-                                  dict(info, failing_call=step + 1), {"kind": "zero_mass", "solver": solver,
-                                                                       "nan": any("NaN" in b for b in bad)})
+                                  dict(info, failing_call=step + 1, max_abs_potential=mag),
+                                  {"kind": "zero_mass", "solver": solver, "nan": any("NaN" in b for b in bad),
+                                   "cause": "huge_potentials" if (mag > 1e6 and only_norm) else "other"})
                     break
         except Exception as ex:
             ctx.violation("estimation with structural zeros raised %r" % ex, info, {"kind": "crash"})
